@@ -364,8 +364,14 @@ func (a *Analysis) store(st *funcState, addr ssa.Value, val Set, pos token.Pos) 
 				}
 			}
 			for l := range base {
-				if a.labels[l].Kind == KGlob {
+				switch a.labels[l].Kind {
+				case KGlob:
 					a.mod(st, l, "field "+key+"."+stt.Field(x.Field).Name(), nil, pos, "field store into memory reachable from a package-level variable")
+				case KSym:
+					// the record belongs to whatever the caller handed in: decided at the call
+					// sites (only package-level memory matters there: a record that merely
+					// carries pointers into the caller's document is not that document)
+					a.addEffect(st, &Effect{Kind: "ptrwrite", Target: l, Field: "field " + key + "." + stt.Field(x.Field).Name(), Pos: pos, Fn: st.fn})
 				}
 			}
 		}
@@ -946,8 +952,14 @@ func (a *Analysis) apply(st *funcState, site ssa.CallInstruction, callee *ssa.Fu
 				case KAddr:
 					a.cellWrite(st, li.Cell, val, e.Pos)
 				case KSym:
-					a.addEffect(st, &Effect{Kind: "ptrwrite", Target: t, Field: "*", Val: val, Pos: e.Pos, Fn: e.Fn, Via: e, Site: site.Pos(), SiteFn: st.fn})
+					a.addEffect(st, &Effect{Kind: "ptrwrite", Target: t, Field: e.Field, Val: val, Pos: e.Pos, Fn: e.Fn, Via: e, Site: site.Pos(), SiteFn: st.fn})
 				case KGlob, KCaller:
+					if e.Field != "*" {
+						if li.Kind == KGlob {
+							a.addEffect(st, &Effect{Kind: "mod", Target: t, Field: e.Field, Pos: e.Pos, Fn: e.Fn, Via: e, Site: site.Pos(), SiteFn: st.fn, Once: e.Once || once, What: "field store into memory reachable from a package-level variable"})
+						}
+						continue
+					}
 					a.addEffect(st, &Effect{Kind: "mod", Target: t, Field: "*", Pos: e.Pos, Fn: e.Fn, Via: e, Site: site.Pos(), SiteFn: st.fn, Once: e.Once || once, What: "store through pointer"})
 				}
 			}
@@ -1044,12 +1056,23 @@ func (a *Analysis) builtin(st *funcState, site ssa.CallInstruction, b *ssa.Built
 			a.writeInto(st, sl.X, Set{}, site.Pos(), 0)
 		}
 		// appending in place to a re-sliced view of someone else's storage writes that storage
-		if _, isSlice := cc.Args[0].(*ssa.Slice); isSlice {
-			if sl, ok := cc.Args[0].Type().Underlying().(*types.Slice); ok && !mayCarry(sl.Elem()) {
-				for l := range a.get(st, cc.Args[0]) {
+		// (directly, or - the loop form of the filter-in-place idiom - through the merge of the
+		// re-slice with earlier appends to it)
+		roots := resliceRoots(cc.Args[0], 0, map[ssa.Value]bool{})
+		if sl0, isSlice := cc.Args[0].(*ssa.Slice); isSlice {
+			roots = append(roots, sl0)
+		}
+		doneRoot := map[*ssa.Slice]bool{}
+		for _, root := range roots {
+			if doneRoot[root] {
+				continue
+			}
+			doneRoot[root] = true
+			if sl, ok := root.Type().Underlying().(*types.Slice); ok && !mayCarry(sl.Elem()) {
+				for l := range a.get(st, root) {
 					if o, ok := a.ownerLabel(l); ok {
 						l = o
-						a.mod(st, l, "append into re-sliced "+types.TypeString(cc.Args[0].Type(), func(p *types.Package) string { return p.Name() }), nil, site.Pos(), "append may overwrite the shared backing array")
+						a.mod(st, l, "append into re-sliced "+types.TypeString(root.Type(), func(p *types.Package) string { return p.Name() }), nil, site.Pos(), "append may overwrite the shared backing array")
 					}
 				}
 			}
